@@ -124,6 +124,57 @@ mut("M40", "conn.go", """	response := ir
 	for {""", """	response := ir
 	c.didAuth = true
 	for {""", ["C09"], "handleAuth", note="didAuth set before the exchange completes")
+mut("M03", "conn.go", """		if err == errPanic {
+			c.Close()
+		}
+
+		c.reset()
+		c.lineLimitReader.LineLimit = c.server.MaxLineLength
+		return""", """		if err == errPanic {
+			c.Close()
+		}
+
+		c.lineLimitReader.LineLimit = c.server.MaxLineLength
+		return""", ["C03", "C07"], "handleBdat", note="failed chunk does not end the transaction")
+mut("M27", "conn.go", "	io.Copy(ioutil.Discard, io.LimitReader(c.text.R, int64(size)))\n	c.lineLimitReader.LineLimit = c.server.MaxLineLength\n}", "	io.Copy(ioutil.Discard, io.LimitReader(c.text.R, int64(size)-1))\n	c.lineLimitReader.LineLimit = c.server.MaxLineLength\n}", ["C05"], "chunk-consumed", note="refused chunk: one octet too few discarded")
+mut("M24", "conn.go", "	if last {\n		c.lineLimitReader.LineLimit = c.server.MaxLineLength\n\n		c.bdatPipe.Close()", "	if last || size == 0 {\n		c.lineLimitReader.LineLimit = c.server.MaxLineLength\n\n		c.bdatPipe.Close()", ["C05", "C07"], "clean-eof-only-after-complete-last-chunk", note="pipe closed cleanly on an empty non-LAST chunk")
+mut("M39", "conn.go", "	c.bdatStatus = nil\n	c.bytesReceived = 0\n", "	c.bdatStatus = nil\n", ["C06", "C03"], "reset/post:tx-discarded", note="reset keeps bytesReceived")
+mut("M22", "conn.go", """	if c.session != nil {
+		c.session.Logout()
+		c.session = nil
+	}
+
+	return c.conn.Close()""", """	c.session = nil
+
+	return c.conn.Close()""", ["C08"], "Close/post:logout-on-close", note="Close drops the session without Logout")
+mut("M67", "conn.go", """	if session := c.Session(); session != nil {
+		session.Logout()
+		c.setSession(nil)
+	}
+	c.helo = \"\"""", """	c.setSession(nil)
+	c.helo = \"\"""", ["C08", "C10"], "upgrade-logs-out", note="STARTTLS drops the session without Logout")
+mut("M34", "conn.go", "	c.writeResponse(code, ec, msg)\n\n	c.errCount++\n	if c.errCount > errThreshold {", "	c.writeResponse(code, ec, msg)\n\n	if code != 501 {\n		c.errCount++\n	}\n	if c.errCount > errThreshold {", ["C19"], "protocolError/post:counted", note="parse errors (501) are not counted")
+mut("M35", "server.go", """				c.writeResponse(500, EnhancedCode{5, 4, 0}, "Too long line, closing connection")
+				return nil""", """				c.writeResponse(500, EnhancedCode{5, 4, 0}, "Too long line, closing connection")
+				continue""", ["C19", "C08"], "handleConn", note="command loop continues after a too-long line")
+mut("M68", "server.go", """			if c.isClosed() {
+				// The connection was given up while handling an earlier command
+				// (QUIT, too many errors, panic): commands already buffered
+				// behind it must not be executed.
+				return nil
+			}
+
+""", "", ["C08"], "handleConn/call-pre", note="regression of fix 28d8a25: commands executed after Close")
+mut("M69", "conn.go", "		c.lineLimitReader.LineLimit = c.server.MaxLineLength\n\n		c.writeResponse(250, EnhancedCode{2, 0, 0}, \"Continue\")", "		c.writeResponse(250, EnhancedCode{2, 0, 0}, \"Continue\")", ["C19", "C05"], "line-limit-restored", note="regression of fix 460cf06")
+mut("M70", "conn.go", """	if err == nil && n != int64(size) {
+		// The connection ended in the middle of the chunk.
+		err = io.ErrUnexpectedEOF
+	}
+""", "	_ = n\n", ["C07", "C05"], "clean-eof-only-after-complete-last-chunk", note="regression of fix b331c3f")
+mut("M71", "conn.go", "		c.writeResponse(502, EnhancedCode{5, 5, 1}, \"Missing RCPT TO command.\")\n		c.discardChunk(size)\n		return", "		c.writeResponse(502, EnhancedCode{5, 5, 1}, \"Missing RCPT TO command.\")\n		return", ["C05"], "handleBdat/post:framing", note="regression of fix c40235b")
+mut("M72", "conn.go", "		err := c.Session().Data(r)\n		r.limited = false\n		io.Copy(ioutil.Discard, r) // Make sure all the data has been consumed\n		for _, rcpt := range c.recipients {", "		err := c.Session().Data(r)\n		io.Copy(ioutil.Discard, r) // Make sure all the data has been consumed\n		for _, rcpt := range c.recipients {", ["C02"], "handleDataLMTP/post:resync", note="regression of fix 41a5def (fallback path)")
+mut("M73", "conn.go", "			status.fillRemaining(lmtpSession.LMTPData(r, status))\n			r.limited = false\n", "			status.fillRemaining(lmtpSession.LMTPData(r, status))\n", ["C02"], "drained", note="regression of fix 41a5def (goroutine path)")
+mut("M21c", "conn.go", "				code, enchCode, msg := dataErrorToStatus(<-c.bdatStatus.status[i])\n				c.writeResponse(code, enchCode, \"<\"+rcpt+\"> \"+msg)", "				code, enchCode, msg := dataErrorToStatus(<-c.bdatStatus.status[len(c.recipients)-1-i])\n				c.writeResponse(code, enchCode, \"<\"+rcpt+\"> \"+msg)", ["C13"], "", note="BDAT LMTP emission loop receives in reverse order")
 # ---------------------------------------------------------------- refactorings (must pass)
 mut("R01", "data.go", "func (r *dataReader) Read(b []byte) (n int, err error) {", "func (r *dataReader) Read(b []byte) (n int, err error) {\n	_ = 0", ["C01", "C02", "C06", "C07"], kind="refactor", note="no-op statement inserted")
 mut("R02", "data.go", """		if r.n <= 0 {
@@ -138,6 +189,8 @@ mut("R02", "data.go", """		if r.n <= 0 {
 		if int64(len(b)) > budget {
 			b = b[0:budget]
 		}""", ["C01", "C06"], kind="refactor", note="r.n hoisted into a local")
+mut("R04", "conn.go", "	if c.helo == \"\" {\n		c.writeResponse(502, EnhancedCode{5, 5, 1}, \"Please introduce yourself first.\")\n		return\n	}\n	if c.bdatPipe != nil {\n		c.writeResponse(502, EnhancedCode{5, 5, 1}, \"MAIL not allowed during message transfer\")\n		return\n	}", "	if c.bdatPipe != nil {\n		c.writeResponse(502, EnhancedCode{5, 5, 1}, \"MAIL not allowed during message transfer\")\n		return\n	}\n	if c.helo == \"\" {\n		c.writeResponse(502, EnhancedCode{5, 5, 1}, \"Please introduce yourself first.\")\n		return\n	}", ["C03", "C04"], kind="refactor", note="the two independent guards of handleMail swapped")
+mut("R05", "conn.go", "	args := strings.Fields(arg)\n	if len(args) == 0 {\n		c.writeResponse(501, EnhancedCode{5, 5, 4}, \"Missing chunk size argument\")", "	srv := c.server\n	_ = srv\n	args := strings.Fields(arg)\n	if len(args) == 0 {\n		c.writeResponse(501, EnhancedCode{5, 5, 4}, \"Missing chunk size argument\")", ["C05", "C07"], kind="refactor", note="c.server hoisted into a local in handleBdat")
 mut("R03", "lengthlimit_reader.go", """	for _, chr := range b[:n] {
 		if chr == '\\n' {""", """	buf := b[:n]
 	for _, chr := range buf {
